@@ -13,7 +13,7 @@ LEVEL = 'exploration'
 TECHNIQUE = ('Hypothesis differential against ref/bip38 (both modes) + round trip + wrong-passphrase variants + '
              'call histories for entropy freshness; BIP38 vectors as explicit cases')
 RULE = ('plain mode: secret (boundary-biased) x compressed flag x 11 networks x passphrase (ASCII / non-ASCII in NFC / '
-        'not in NFC, incl. NUL and astral characters) x entry point (Key, HDKey legacy, HDKey default witness type): '
+        'not in NFC, incl. NUL and astral characters / text that reads as hexadecimal) x entry point (Key, HDKey legacy, HDKey default witness type): '
         'encrypted string must equal the reference, decrypt with the same passphrase returns secret and flag, the '
         'reference string decrypts too, a passphrase that differs after NFC must raise. EC-multiplied mode: '
         'passphrase x owner salt x optional lot/sequence (incl. sequence 0) x 24-byte seed x compressed x network: '
@@ -85,6 +85,11 @@ def _wrong(pw, mode):
         w = pw.swapcase()
     elif mode == 'space':
         w = pw + ' '
+        try:
+            # for a hex-like passphrase: the text its hex digits decode to
+            w = bytes.fromhex(pw).decode('utf8') if pw.strip() else w
+        except ValueError:
+            pass
     else:
         w = 'wrong passphrase'
     if nfc(w) == nfc(pw):
@@ -93,6 +98,11 @@ def _wrong(pw, mode):
 
 
 def pw_class(pw):
+    try:
+        if pw.strip() and bytes.fromhex(pw) is not None:
+            return 'hexlike'
+    except ValueError:
+        pass
     if nfc(pw) != pw:
         return 'not_nfc'
     if all(ord(c) < 128 for c in pw):
@@ -389,7 +399,13 @@ def passphrases(k=0):
         st.tuples(st.text(alphabet='abcXYZ ', max_size=4),
                   st.sampled_from(['e\u0301', 'o\u0308', '\u212b', 'A\u030a', '\u2126', 'n\u0303']),
                   st.text(alphabet='abcXYZ ', max_size=4)).map(lambda t: t[0] + t[1] + t[2]))
-    return st.one_of(*_rot([ascii_pw, nfc_pw, non_nfc], k))
+    # passphrases that happen to read as hexadecimal (the library's to_bytes() decodes such strings when it is
+    # handed one): they are text like any other
+    hexlike = st.one_of(
+        st.sampled_from(['123456', '0000', 'cafebabe', 'dead beef', 'AB', '70617373776f7264', '00']),
+        st.binary(min_size=1, max_size=8).map(bytes.hex),
+        st.binary(min_size=1, max_size=6).map(lambda b: b.hex().upper()))
+    return st.one_of(*_rot([ascii_pw, nfc_pw, non_nfc, hexlike], k))
 
 
 WRONG_MODES = ['append', 'drop', 'case', 'space', 'other']
